@@ -30,6 +30,7 @@ R = z3.RealSort()
 RND = z3.Function("rnd", sym.I, R)            # float(int) when it does not overflow
 INT_OF_STR = z3.Function("int_of_str", sym.ArrS, sym.I, sym.I)
 TWO53 = 2 ** 53
+ISINST = z3.Function("isinst", sym.ValS, sym.I, sym.B)
 
 
 def tag_is(v, *names):
@@ -143,9 +144,11 @@ def install(w):
     w.to_dyn = to_dyn
 
     # ------------------------------------------------------------------ isinstance / truth / ==
+    prev_isinstance = w.isinstance_ext
+
     def isinstance_ext(it, v, k, node):
         if not isinstance(v, VDyn):
-            return None
+            return prev_isinstance(it, v, k, node)
         t = v.t
         tg = sym.tag(t)
         if k is bool:
@@ -167,8 +170,8 @@ def install(w):
         if k is type(None):
             return tg == T["none"]
         if issubclass(k, BaseException) or k.__module__.startswith("graphql"):
-            # a library class: only 'other' values can be instances
-            return z3.And(tg == T["other"], z3.Bool(it.namer.fresh(f"isinst_{k.__name__}")))
+            # a library class: only 'other' values can be instances (consistent per value/class)
+            return z3.And(tg == T["other"], ISINST(t, sym.ATOMS.code(k)))
         return None
     w.isinstance_ext = isinstance_ext
 
@@ -473,6 +476,9 @@ def install(w):
         "float_int_of": lambda it, v: VInt(z3.ToInt(sym.as_fval(as_dyn_t(it, v)))),
         "num_eq": p(lambda it, a, b: num_eq(numeric(it, a), numeric(it, b))),
         "same": p(lambda it, a, b: as_dyn_t(it, a) == as_dyn_t(it, b)),
+        "instance_of": p(lambda it, v, name: z3.And(
+            sym.tag(as_dyn_t(it, v)) == T["other"],
+            ISINST(as_dyn_t(it, v), sym.ATOMS.code(w.resolve_class(name.lit))))),
     })
 
     # fresh dynamic values are well formed
